@@ -508,6 +508,14 @@ class Exec(Interp):
                 self.frame.env[nm] = ModuleRef(modname + "." + a.name)
             elif self.repo.has_module(modname):
                 m2 = self.repo.module(modname)
+                if a.name not in m2.names:
+                    # a package re-exporting its sub-modules with `from pkg.sub import *` (whoosh.query): the name is the
+                    # one defined by the star-imported sub-module that has it
+                    for st in ast.walk(m2.tree) if hasattr(m2, "tree") else []:
+                        if isinstance(st, ast.ImportFrom) and st.module and any(x.name == "*" for x in st.names) \
+                                and self.repo.has_module(st.module) and a.name in self.repo.module(st.module).names:
+                            m2 = self.repo.module(st.module)
+                            break
                 self.frame.env[nm] = self.global_value(m2, a.name)
             else:
                 self.frame.env[nm] = ExternalRef(modname + "." + a.name)
